@@ -439,6 +439,7 @@ type world struct {
 	step  int
 	kinds []string
 	outs  []string
+	last  [nSlots][]vrec // state of every set after the last operation (isolation oracle)
 	// rounds since the last membership change per slot are tracked inside doRounds
 }
 
@@ -490,6 +491,17 @@ func genPowers(r *gen.Rand, n int) ([]int64, int) {
 
 func (w *world) current(slot int) []vrec { return snapshot(w.slots[slot]) }
 
+// isolate: an operation on one set must leave every other set (copies included) untouched.
+func (w *world) isolate(touched int) {
+	for j := range w.slots {
+		cur := snapshot(w.slots[j])
+		if j != touched && !sameRecs(cur, w.last[j]) {
+			w.o.Fail(w.step, "isolation", fmt.Sprintf("set %d changed by an operation on set %d: was=%s now=%s", j, touched, recsStr(w.last[j]), recsStr(cur)))
+		}
+		w.last[j] = cur
+	}
+}
+
 func (w *world) note(kind, outcome string) {
 	w.kinds = append(w.kinds, kind)
 	w.outs = append(w.outs, outcome)
@@ -540,6 +552,7 @@ func (w *world) doNew(slot int, rs []vrec, ask bool) {
 	if ask {
 		a = 1
 	}
+	w.isolate(slot)
 	w.o.Op(fmt.Sprintf("N %d %d %d%s", slot, a, len(rs), triples(rs)), observe(w.o, w.step, w.slots[slot], ask, status, nil))
 }
 
@@ -601,6 +614,7 @@ func (w *world) doInc(slot int, k int64, ask bool) {
 	if ask {
 		a = 1
 	}
+	w.isolate(slot)
 	w.o.Op(fmt.Sprintf("I %d %d %d", slot, a, k), observe(w.o, w.step, vs, ask, status, nil))
 }
 
@@ -704,6 +718,7 @@ func (w *world) doUpdate(slot int, changes []vrec, kind string, ask bool) {
 	if ask {
 		a = 1
 	}
+	w.isolate(slot)
 	w.o.Op(fmt.Sprintf("U %d %d %d%s", slot, a, len(changes), triples(changes)), observe(w.o, w.step, vs, ask, status, nil))
 }
 
@@ -720,6 +735,7 @@ func (w *world) doCopy(src, dst int, ask bool) {
 	if ask {
 		a = 1
 	}
+	w.isolate(dst)
 	w.o.Op(fmt.Sprintf("C %d %d %d", src, dst, a), observe(w.o, w.step, cp, ask, "ok", nil))
 }
 
@@ -789,6 +805,7 @@ func (w *world) doRounds(slot int, rounds int, ask bool, afterChange bool) {
 	if ask {
 		a = 1
 	}
+	w.isolate(slot)
 	w.o.Op(fmt.Sprintf("R %d %d %d", slot, a, rounds), observe(w.o, w.step, vs, ask, status, seq))
 }
 
